@@ -921,6 +921,17 @@ class Engine(Exec):
     def st_Pass(self, s, st, fr):
         return [st]
 
+    def st_FunctionDef(self, s, st, fr):
+        """Nested helper `def g(args): return <expr>` (one expression, no defaults): a closure over the current names."""
+        body = [b for b in s.body if not (isinstance(b, ast.Expr) and isinstance(b.value, ast.Constant))]
+        if len(body) != 1 or not isinstance(body[0], ast.Return) or s.args.defaults or s.args.vararg or s.args.kwarg or s.decorator_list:
+            raise OutOfReach('nested function %s is not a one-expression helper' % s.name)
+        lam = ast.Lambda(args=s.args, body=body[0].value)
+        ast.copy_location(lam, s)
+        ast.fix_missing_locations(lam)
+        st.env[s.name] = self.ev(lam, st, fr)
+        return [st]
+
     def st_Import(self, s, st, fr):
         return [st]
 
@@ -986,7 +997,11 @@ class Engine(Exec):
             st.env[t.id] = v
         elif isinstance(t, (ast.Tuple, ast.List)):
             if self.is_arr(v):
-                raise OutOfReach('unpacking an array')
+                if v.rank == 1 and is_cint(v.shape[0]):
+                    ef = self.elem_fn(st, v)
+                    v = [simp(ef((k,))) for k in range(v.shape[0])]
+                else:
+                    raise OutOfReach('unpacking an array')
             vs = list(v)
             if len(vs) != len(t.elts):
                 self.safety(st, fr, 'unpack_length', False, t)
